@@ -41,8 +41,15 @@ def set_pregrads(leaves, pre_seed: int, mode: str, scale: float = 1.0):
             if lay.random() < 0.3 and t.numel() >= 2:
                 # a NON-CONTIGUOUS existing .grad (as left by torch for channels_last weights, or installed by the user as a
                 # strided view of a flat gradient buffer): same values, every other element of a twice larger buffer
-                big = torch.zeros(tuple(t.shape) + (2,), dtype=t.dtype)
-                view = big[..., 0]
+                if t.dim() >= 2 and lay.random() < 0.5:
+                    # permuted storage (e.g. the .grad torch leaves for a transposed / channels_last parameter): no flat view
+                    # of it exists, so reshape(-1) / view(-1) of it has to COPY
+                    perm = list(range(t.dim()))[::-1]
+                    store = torch.zeros([t.shape[i] for i in perm], dtype=t.dtype)
+                    view = store.permute(*perm)
+                else:
+                    big = torch.zeros(tuple(t.shape) + (2,), dtype=t.dtype)
+                    view = big[..., 0]
                 view.copy_(g)
                 g = view
             t.grad = g
